@@ -85,7 +85,7 @@ def corr(ctx):
 COL = ['red', 'blue', 'green', 'purple', 'orange']
 def gen_doc(rng):
     def stroke_attrs():
-        a = f' stroke="{rng.choice(COL)}" stroke-width="{rng.choice([2, 3, 4, 1.5])}"'
+        a = f' stroke="{rng.choice(COL)}" stroke-width="{rng.choice([2, 3, 4, 1.5]) if rng.random() < 0.93 else 0}"'     # width 0: no stroke at all
         if rng.random() < 0.6: a += f' stroke-linecap="{rng.choice(["butt", "round", "square"])}"'
         if rng.random() < 0.6: a += f' stroke-linejoin="{rng.choice(["miter", "round", "bevel"])}"'
         if rng.random() < 0.3: a += f' stroke-miterlimit="{rng.choice([1, 2, 10])}"'
@@ -152,6 +152,8 @@ def search(ctx, broken, disagreements):
     return found, {'evaluations': n}
 
 def matches_known(v, entry):
+    if entry.get('signature', {}).get('pattern') == 'gradient_stroke_paint':
+        return bool(re.search(r'stroke="url\(', v['input'].get('doc', '')))
     return False
 
 def replay(ctx, w):
